@@ -214,6 +214,40 @@ def main(tier):
             if got != sorted(exp):
                 chk.violation(f"C16/case-folded-without-ignore-case opts={' '.join(opts)!r}", f"`group t4 {' '.join(opts)}` selects {got} (exit {r.rc}), the options describe exactly {sorted(exp)}",
                               {"opts": opts, "got": got, "expected": sorted(exp), "stderr": r.err.decode("utf-8", "replace")[-400:]})
+        # --ignore-case folds non-ASCII letters as well, in the match and in the decision which directories to enter
+        udir = os.path.join(work, "anch", "t5")
+        for n_ in ("\u017bd/a.txt", "\u017bd/b.txt", "\u017cd/c.txt", "Zd/a.txt", "zd/b.txt", "\u00c4\u00d6/x.txt", "\u00e4\u00f6/y.txt"):
+            lib.write_file(os.path.join(udir, n_), b"same5")
+        for opts, exp in ((["-i", "--path", "t5/zd/*"], ["Zd/a.txt", "zd/b.txt"]), (["--path", "t5/\u017bd/*"], ["\u017bd/a.txt", "\u017bd/b.txt"]),
+                          (["-i", "--path", "t5/\u017cd/*"], ["\u017bd/a.txt", "\u017bd/b.txt", "\u017cd/c.txt"]), (["-i", "--path", "t5/\u017bD/*"], ["\u017bd/a.txt", "\u017bd/b.txt", "\u017cd/c.txt"]),
+                          (["-i", "--path", os.path.join(udir, "\u017cd/*")], ["\u017bd/a.txt", "\u017bd/b.txt", "\u017cd/c.txt"]),
+                          (["-i", "--path", "t5/\u00e4\u00d6/*"], ["\u00c4\u00d6/x.txt", "\u00e4\u00f6/y.txt"]), (["--path", "t5/\u00e4\u00f6/*"], ["\u00e4\u00f6/y.txt"])):
+            r = lib.run_fclones(["group", "t5", "--rf-over", "0", "-f", "fdupes"] + opts, os.path.dirname(udir), lib.base_env(work), timeout=60)
+            got = sorted(os.path.relpath(os.fsdecode(dd.stfu8_decode(l)), udir) for l in r.out.decode("utf-8", "replace").splitlines() if l.strip()) if r.rc == 0 else None
+            anch += 1
+            if got != sorted(exp):
+                chk.violation(f"C16/non-ascii-case-folding opts={' '.join(opts[:2] + [os.path.basename(os.path.dirname(opts[-1])) + '/*'])!r}",
+                              f"`group t5 {' '.join(opts)}` selects {got} (exit {r.rc}), the options describe exactly {sorted(exp)}",
+                              {"opts": opts, "got": got, "expected": sorted(exp), "stderr": r.err.decode("utf-8", "replace")[-400:]})
+        # the same globs on the dedupe side (--path / --keep-path of `remove`): whole-path matches, never a match of a prefix of the path
+        ddir = os.path.join(work, "anch", "t6")
+        for n_ in ("0keep", "a/zz", "b/zz/f", "e/zzz", "zz", "c/zz.txt"):
+            lib.write_file(os.path.join(ddir, n_), b"same6")
+        rep6 = lib.run_fclones(["group", "t6"], os.path.dirname(ddir), lib.base_env(work), timeout=60)
+        for opts, exp in ((["--path", "**/zz"], ["a/zz", "zz"]), (["--path", "**/zz*"], ["a/zz", "zz", "e/zzz", "c/zz.txt"]), (["--path", "**/zz/**"], ["b/zz/f"]),
+                          (["--keep-path", "**/zz"], ["0keep", "b/zz/f", "e/zzz", "c/zz.txt"]), (["--name", "zz"], ["a/zz", "zz"]), (["--keep-name", "zz"], ["0keep", "b/zz/f", "e/zzz", "c/zz.txt"]),
+                          (["--path", os.path.join(ddir, "?")], []), (["--path", os.path.join(ddir, "?/zz")], ["a/zz"])):
+            r = lib.run_fclones(["remove", "--dry-run"] + opts, os.path.dirname(ddir), lib.base_env(work), stdin=rep6.out, timeout=60)
+            removed = []
+            if r.rc == 0:
+                for line in r.out.splitlines():
+                    if line.startswith(b"rm "):
+                        removed.append(os.path.relpath(os.fsdecode(line[3:].strip().strip(b"'")), ddir))
+            got = sorted(removed) if r.rc == 0 else None
+            anch += 1
+            if got != sorted(exp):
+                chk.violation(f"C16/dedupe-side-glob opts={' '.join([opts[0], opts[1].replace(ddir, 't6')])!r}", f"`remove --dry-run {' '.join(opts)}` would remove {got} (exit {r.rc}), the pattern selects exactly {sorted(exp)}",
+                              {"opts": opts, "got": got, "expected": sorted(exp), "stderr": r.err.decode("utf-8", "replace")[-400:]})
         chk.cov["anchor_char_cases"] = anch
         chk.cov["selector_pairs"] = len(sel)
         chk.cov["evaluations"] = pairs
